@@ -298,12 +298,19 @@ def plain_status(run, rng, cfg):
         conn = pc.make_connection(server.port, rec, allowed_versions=cfg['A'])
         args = {}
         hs_mode, hp_mode = cfg['handle_status'], cfg['handle_ping']
+        def on_status(obj_):
+            rec.statuses.append(obj_)
+            rec.log.emit('cb.status')
+
+        def on_ping(ms):
+            rec.pings.append(ms)
+            rec.log.emit('cb.ping')
         if hs_mode == 'custom':
-            args['handle_status'] = rec.statuses.append
+            args['handle_status'] = on_status
         elif hs_mode == 'disabled':
             args['handle_status'] = False
         if hp_mode == 'custom':
-            args['handle_ping'] = rec.pings.append
+            args['handle_ping'] = on_ping
         elif hp_mode == 'default':
             args['handle_ping'] = None        # documented: print the latency
         elif rng.random() < 0.5:
@@ -374,6 +381,12 @@ def plain_status(run, rng, cfg):
         if hp_mode == 'disabled' and (rec.pings or 'Ping:' in printed):
             bad('plain-status/ping-disabled', 'latency reported although '
                 'disabled')
+        order = [k for _s, _r, k, _p in rec.log.events
+                 if k in ('cb.status', 'cb.ping', 'cb.exit')]
+        if order != sorted(order, key=('cb.status', 'cb.ping',
+                                       'cb.exit').index):
+            bad('plain-status/callback-order', 'callbacks must come in the '
+                'order status, latency, exit', order=order)
         if rec.exits != 1 or rec.exceptions:
             bad('plain-status/exit', 'status query must end with the exit '
                 'callback (once) and no error', exits=rec.exits,
